@@ -12,11 +12,17 @@ import (
 // _varint (stream.readVarint), _frames (readFrameHeader / ReadByte / Read / discardFrame / endFrame accounting),
 // _body (bodyReader.Read against a reference frame splitter), _settings (readSettings), _framedata
 // (readFrameData), _request (known finding C35-overread-nil-stream).
+// _length: the same consumers behind a frame header whose length field uses any of the four varint encodings and
+// any declared value up to 2^62-1 (the peer chooses it; nothing has to arrive): discardUnknownFrame, the real
+// client/server control-stream loops, bodyReader.Read and readSettings must neither panic nor size anything by
+// the declared length, and report the truncated frame as H3_FRAME_ERROR.
 //
 // Sensitivity (sh mut.sh, all caught):
 //   body.go Read `p = p[:r.st.lim]` dropped                      : VerifC35_body "terminal error class" / "complete DATA frames delivered..."
 //   stream.go endFrame `st.lim != 0` -> `st.lim > 0`             : VerifC35_frames "endFrame outside a frame refused"
 //   stream.go recordBytesRead `st.lim < 0` -> `st.lim < -64`     : VerifC35_frames "ReadByte past the frame: connection error H3_FRAME_ERROR"
+//   stream.go discardFrame loop -> `st.readFrameData()` (seed C35-D): VerifC35_length panic "makeslice: len out of range" (consumers discard, control, body)
+//   stream.go discardFrame `for range st.lim` -> `for range int32(st.lim)` : VerifC35_length "truncated unknown frame: H3_FRAME_ERROR"
 
 func init() {
 	vfRegister("VerifC35_varint", VerifC35_varint)
@@ -25,6 +31,7 @@ func init() {
 	vfRegister("VerifC35_settings", VerifC35_settings)
 	vfRegister("VerifC35_framedata", VerifC35_framedata)
 	vfRegister("VerifC35_request", VerifC35_request)
+	vfRegister("VerifC35_length", VerifC35_length)
 }
 
 func c35stream(data []byte) *stream {
@@ -378,6 +385,13 @@ func VerifC35_body() {
 	b := vfBytes("b", n)
 	remain := int64(vfLen("contentlength", 0, 3)) - 1
 	bufsz := []int{1, 2, 8}[vfChoice("buf", 3)]
+	c35bodyCheck(b, remain, bufsz)
+	vfReach("end")
+}
+
+// c35bodyCheck runs a bodyReader over b + FIN against the reference splitter (see VerifC35_body).
+func c35bodyCheck(b []byte, remain int64, bufsz int) {
+	n := len(b)
 	ref := c35split(b, remain)
 
 	st := c35stream(b)
@@ -423,7 +437,6 @@ func VerifC35_body() {
 	case c35other:
 		vfReach("bad trailers")
 	}
-	vfReach("end")
 }
 
 // readSettings over N symbolic bytes + FIN: first frame must be SETTINGS (else H3_MISSING_SETTINGS); the callback
@@ -437,6 +450,13 @@ func VerifC35_settings() {
 	}
 	n := vfLen("n", 0, nmax)
 	b := vfBytes("b", n)
+	c35settingsCheck(b)
+	vfReach("end")
+}
+
+// c35settingsCheck runs readSettings over b + FIN against the reference (see VerifC35_settings).
+func c35settingsCheck(b []byte) {
+	n := len(b)
 	st := c35stream(b)
 	var ids, vals []int64
 	err := st.readSettings(func(id, v int64) error {
@@ -459,7 +479,6 @@ func VerifC35_settings() {
 		vfAssert(isConn && ce.code == errH3MissingSettings, "no SETTINGS frame: H3_MISSING_SETTINGS")
 		vfAssert(len(ids) == 0, "no setting reported")
 		vfReach("missing settings")
-		vfReach("end")
 		return
 	}
 	pos := ts + ls
@@ -508,7 +527,6 @@ func VerifC35_settings() {
 	} else {
 		vfAssert(err != nil, "malformed SETTINGS rejected")
 	}
-	vfReach("end")
 }
 
 // readFrameData (no production caller at this commit) with a frame length 0..5 and 0..5 bytes present: returns
@@ -592,4 +610,204 @@ func VerifC35_request() {
 		vfReach("stream error")
 	}
 	vfReach("end")
+}
+
+// ---------------------------------------------------------------------------------------------------------
+// Frame headers over the whole range of the length field.
+//
+// The harnesses above keep declared frame lengths below 64 (or the whole input below 7 bytes, so that an 8-byte
+// length field never fits). The length field is a 62-bit varint chosen by the peer, in any of the four encodings
+// (non-minimal ones included), and a frame header can be followed by FIN at once: whatever handles the frame
+// must not panic, must not size anything by the declared length, and must report the missing payload as an
+// H3_FRAME_ERROR-class failure. The harnesses below put one such header (1-byte symbolic type, symbolic length
+// in a chosen encoding) in front of 0..3 symbolic bytes + FIN and run the consumers of the harnesses above.
+
+// c35length returns a frame length and its encoding in a chosen varint size (1, 2, 4 or 8 bytes, non-minimal
+// encodings included). Values: below small (thorough: below smallThorough) or from 2^48 up to 2^62-1, symbolic;
+// with concreteSmall the small values are chosen concretely (one path each) and only the large ones are symbolic.
+// The gap is left out for the sake of defective trees only: there a declared length that reaches make() is
+// reported by the engine as an input-sized allocation for 2^26..2^47 (a native replay would really ask the
+// runtime for that much), and is forked over value by value below that (which is also why the harnesses with many
+// paths take their small lengths concretely); from 2^48 on the Go runtime refuses the allocation outright (a
+// panic that replays natively).
+func c35length(small, smallThorough uint64, concreteSmall bool) (uint64, []byte) {
+	e := 3 - vfChoice("lenenc", 4) // 8-byte encoding first
+	size := 1 << e
+	if vfTier() > 0 {
+		small = smallThorough
+	}
+	var v uint64
+	if concreteSmall && (e < 3 || vfChoice("lenregion", 2) == 1) {
+		v = uint64(vfLen("smalllen", 0, int(small)-1))
+	} else {
+		v = vfU64("len")
+		vfAssume(v < uint64(1)<<(8*size-2))
+		if concreteSmall {
+			vfAssume(v >= 1<<48)
+		} else {
+			vfAssume(vfOr(v < small, v >= 1<<48))
+		}
+	}
+	enc := make([]byte, size)
+	for i := range enc {
+		enc[i] = byte(v >> (8 * (size - 1 - i)))
+	}
+	enc[0] |= byte(e << 6)
+	return v, enc
+}
+
+// c35frameInput: 1-byte symbolic frame type (< 64), symbolic length (c35length), 0..3 symbolic bytes.
+// (With at most 3 bytes behind the header every length above 3 is a truncated frame: the consumers that parse the
+// bytes behind the frame take small lengths 0..4 concretely, thorough 0..7; the plain skip takes them symbolically
+// below 64, thorough 2^14.)
+func c35frameInput(small, smallThorough uint64, concreteSmall bool) (ftype byte, flen uint64, n int, data []byte) {
+	ftype = vfU8("type")
+	vfAssume(ftype < 64)
+	flen, lf := c35length(small, smallThorough, concreteSmall)
+	n = vfLen("payload", 0, 3)
+	data = append([]byte{ftype}, lf...)
+	data = append(data, vfBytes("p", n)...)
+	return
+}
+
+func c35known(t frameType) bool {
+	switch t {
+	case frameTypeData, frameTypeHeaders, frameTypeCancelPush, frameTypeSettings, frameTypePushPromise, frameTypeGoaway, frameTypeMaxPushID:
+		return true
+	}
+	return false
+}
+
+// One entry point for the four consumers (one exploration budget; the cheapest consumer and, in c35length, the
+// largest lengths are explored first: the explorer is depth-first and takes choice 0 first).
+func VerifC35_length() {
+	switch vfChoice("consumer", 4) {
+	case 0:
+		c35lenDiscard()
+	case 1:
+		c35lenControl()
+	case 2:
+		c35lenBody()
+	case 3:
+		c35lenSettings()
+	}
+	vfReach("end")
+}
+
+// readFrameHeader + discardUnknownFrame: the header is decoded exactly in every encoding; a known type is
+// H3_FRAME_UNEXPECTED with nothing consumed; an unknown frame is skipped exactly when its payload is there, and is
+// an H3_FRAME_ERROR stream error when FIN comes first, however large the declared length.
+func c35lenDiscard() {
+	ftype, flen, n, data := c35frameInput(64, 1<<14, false)
+	st := c35stream(data)
+	got, err := st.readFrameHeader()
+	vfAssert(err == nil && got == frameType(ftype) && st.lim == int64(flen), "frame header in any length encoding")
+	vfAssert(c35unread(st) == int64(n), "header consumed exactly")
+	err = st.discardUnknownFrame(got)
+	vfObserve("class", uint64(c35class(err)))
+	switch {
+	case c35known(got):
+		vfAssert(c35class(err) == c35unexpected, "known frame type: H3_FRAME_UNEXPECTED")
+		vfAssert(c35unread(st) == int64(n), "nothing consumed")
+		vfReach("known type")
+	case flen > uint64(n):
+		vfAssert(c35class(err) == c35frame, "truncated unknown frame: H3_FRAME_ERROR")
+		if flen >= 1<<48 {
+			vfReach("huge declared length")
+		}
+		vfReach("truncated")
+	default:
+		vfAssert(err == nil && st.lim == -1, "unknown frame skipped")
+		vfAssert(c35unread(st) == int64(n)-int64(flen), "skipped exactly the frame")
+		vfReach("skipped")
+	}
+}
+
+// c35controlRef: how a control-stream loop must end on b + FIN (behind the SETTINGS frame): unknown frames are
+// skipped; the first known frame type ends the loop with some error (c35other here: CANCEL_PUSH, GOAWAY and
+// the frames that are not allowed on a control stream all end it); FIN between frames is io.EOF (closing a
+// critical stream is handled by the caller); FIN inside a frame is H3_FRAME_ERROR.
+func c35controlRef(b []byte) (final int, skipped int) {
+	pos := 0
+	for {
+		ftype, ts, ok := c35varint(b[pos:])
+		if ts == 0 {
+			return c35eof, skipped
+		}
+		if !ok {
+			return c35frame, skipped
+		}
+		pos += ts
+		flen, ls, ok := c35varint(b[pos:])
+		if ls == 0 { // (lenient) FIN between type and length, as in c35split
+			return c35eof, skipped
+		}
+		if !ok {
+			return c35frame, skipped
+		}
+		pos += ls
+		if c35known(frameType(ftype)) {
+			return c35other, skipped
+		}
+		if flen > int64(len(b)-pos) {
+			return c35frame, skipped
+		}
+		pos += int(vfConcretize(uint64(flen)))
+		skipped++
+	}
+}
+
+// The real control-stream loops of the server and the client ((*serverConn).handleControlStream,
+// (*clientConn).handleControlStream; neither touches its receiver) over an empty SETTINGS frame, one frame header
+// as above, 0..3 symbolic bytes and FIN.
+func c35lenControl() {
+	_, flen, _, data := c35frameInput(5, 8, true)
+	st := c35stream(append([]byte{byte(frameTypeSettings), 0}, data...))
+	var err error
+	if vfChoice("side", 2) == 0 {
+		err = (&serverConn{}).handleControlStream(st)
+	} else {
+		err = (&clientConn{}).handleControlStream(st)
+	}
+	want, skipped := c35controlRef(data)
+	cl := c35class(err)
+	vfObserve("class", uint64(cl))
+	if want == c35other {
+		vfAssert(cl != c35nil && cl != c35eof && cl != c35frame, "known frame type ends the control stream loop")
+		vfReach("known type")
+	} else {
+		vfAssert(cl == want, "control stream: terminal error class")
+	}
+	if want == c35frame && flen >= 1<<48 {
+		vfReach("huge declared length")
+	}
+	if want == c35eof && skipped > 0 {
+		vfReach("unknown frame skipped, then FIN")
+	}
+	if skipped > 1 {
+		vfReach("two frames skipped")
+	}
+}
+
+// bodyReader.Read (as VerifC35_body) over one frame header as above + 0..3 symbolic bytes + FIN: a DATA frame that
+// declares up to 2^62-1 bytes delivers what is there and then fails with H3_FRAME_ERROR (or H3_MESSAGE_ERROR
+// against a Content-Length); an unknown frame of that size is H3_FRAME_ERROR; a HEADERS frame of that size is a
+// trailer decoding error.
+func c35lenBody() {
+	_, flen, _, data := c35frameInput(5, 8, true)
+	remain := int64(vfLen("contentlength", 0, 3)) - 1
+	bufsz := []int{1, 8}[vfChoice("buf", 2)]
+	c35bodyCheck(data, remain, bufsz)
+	if flen >= 1<<48 {
+		vfReach("huge declared length")
+	}
+}
+
+// readSettings (as VerifC35_settings) over one frame header as above + 0..3 symbolic bytes + FIN.
+func c35lenSettings() {
+	_, flen, _, data := c35frameInput(5, 8, true)
+	c35settingsCheck(data)
+	if flen >= 1<<48 {
+		vfReach("huge declared length")
+	}
 }
